@@ -107,17 +107,32 @@ impl Database {
             if self.handle_set(&plan)? {
                 continue;
             }
-            if !self.config.lock().unwrap().disable_optimizer {
-                plan = optimizer.optimize(plan);
-            }
-            let executor = match self.storage.clone() {
-                StorageImpl::InMemoryStorage(s) => {
-                    crate::executor::build(optimizer.clone(), s, &plan)
+            // A panic in the optimizer or in the executor builder (a plan shape nobody handles)
+            // must not unwind into the caller: report it like a panic inside an operator.
+            let disable_optimizer = self.config.lock().unwrap().disable_optimizer;
+            let built = std::panic::catch_unwind(std::panic::AssertUnwindSafe(|| {
+                if !disable_optimizer {
+                    plan = optimizer.optimize(plan);
                 }
-                StorageImpl::SecondaryStorage(s) => {
-                    crate::executor::build(optimizer.clone(), s, &plan)
+                match self.storage.clone() {
+                    StorageImpl::InMemoryStorage(s) => {
+                        crate::executor::build(optimizer.clone(), s, &plan)
+                    }
+                    StorageImpl::SecondaryStorage(s) => {
+                        crate::executor::build(optimizer.clone(), s, &plan)
+                    }
                 }
-            };
+            }));
+            let executor = built.map_err(|payload| {
+                let message = if let Some(s) = payload.downcast_ref::<&str>() {
+                    s.to_string()
+                } else if let Some(s) = payload.downcast_ref::<String>() {
+                    s.clone()
+                } else {
+                    "unknown panic".to_string()
+                };
+                crate::executor::ExecutorError::panicked(format!("planner: {message}"))
+            })?;
             let output = executor.try_collect().await?;
             let mut chunk = Chunk::new(output);
             chunk = bind_header(chunk, &stmt);
